@@ -217,7 +217,9 @@ class Builder(object):
         return M
 
     def metric(self, e):
-        self.emit(op="metric", P=self.P, e=e)
+        op = self.emit(op="metric", P=self.P, e=e)
+        if self.names:
+            op["name"] = "met_" + e
         self.info.setdefault("metrics", []).append(e)
 
     def partition(self, d):
@@ -639,7 +641,7 @@ def t_bcd(b, n, rng):
 
 def t_linear(b, n, rng):
     """Bounded models on the linear-operator classes (class LMIs)."""
-    cls = rng.choice(["SymmetricLinearOperator", "SkewSymmetricLinearOperator", "LinearOperator"])
+    cls = rng.choice(["SymmetricLinearOperator", "SkewSymmetricLinearOperator", "LinearOperator", "LinearOperator"])
     L = r2(0.5 + 1.5 * rng.random())
     b.pep()
     x0 = b.point()
@@ -670,7 +672,7 @@ def t_linear(b, n, rng):
         y = b.gradient(A, x)
         ys.append(y)
         x = b.plin([(x, 1.0), (y, -r2(0.5 / L))])
-    if cls == "LinearOperator" and rng.random() < 0.8:
+    if cls == "LinearOperator" and rng.random() < 0.6:
         u = b.point()
         _ = b.gradient(A + "T", u)
         b.bound(b.sq(u), 1.0)
@@ -678,6 +680,11 @@ def t_linear(b, n, rng):
     b.bound(b.sq(x0), 1.0, how="initial")
     if cls == "SkewSymmetricLinearOperator" and rng.random() < 0.5:
         b.metric(b.inner(x0, ys[0]))     # <x, Ax>: zero for every skew-symmetric operator
+    elif cls == "LinearOperator" and len(ys) >= 2 and rng.random() < 0.5:
+        # <x0, A x1> - <x1, A x0>: zero for every symmetric operator, not for a general one
+        x1 = b.plin([(x0, 1.0), (ys[0], -r2(0.5 / L))])
+        b.points.pop()
+        b.metric(b.elin([(b.inner(x0, ys[1]), 1.0), (b.inner(x1, ys[0]), -1.0)]))
     else:
         b.metric(b.sq(ys[-1]))
     b.info.update(template="linear", cls=cls, f=A, x0=x0, xn=x, main_f=A)
@@ -928,11 +935,33 @@ def decorate(b, rng, kinds):
                 a2 = b.elin([(e, -1.0)], const=c * ub + r * r)
                 b.psd([[a2, r], [r, 1.0]], target=target)
         elif kind == "tiny_scale" and pts:
-            # a redundant bound written in a tiny (or huge) unit: eps * ||p||^2 <= eps * 1e3
-            eps = rng.choice([1e-9, 1e-10, 1e-12, 1e-9, 1e9])
+            # a redundant bound written in a tiny unit: eps * ||p||^2 <= eps * 1e3  (a *huge* unit, 1e9, was tried
+            # and withdrawn: a REAL solver answers such a badly scaled SDP with a residual that is not PSD to 2e-2,
+            # which says nothing about PEPit)
+            eps = rng.choice([1e-9, 1e-10, 1e-12, 1e-9, 1e-11])
             p = rng.choice(pts)
             e = b.elin([(b.sq(p), eps)])
             b.cons(e, "<=", eps * 1e3, target=rng.choice([P] + ([info["main_f"]] if info.get("main_f") else [])))
+        elif kind == "raw_zero_lmi" and len(pts) >= 2:
+            # an LMI entry that still carries explicit zero coefficients: <p + 0 q, p + q> with the first factor
+            # built by the Point constructor (nothing prunes an LMI entry); |entry| <= 1e4 is redundant
+            p, q = rng.sample(pts, 2)
+            a = b.nm("x")
+            b.emit(op="praw", out=a, terms=[[p, 1.0], [q, 0.0]] if rng.random() < 0.5 else [[q, 0.0], [p, 1.0]])
+            s_ = b.plin([(p, 1.0), (q, 1.0)])
+            b.points.pop()
+            e = b.inner(a, s_) if rng.random() < 0.5 else b.inner(s_, a)
+            b.psd([[1e4, e], [e, 1e4]], target=rng.choice([P] + ([info["main_f"]] if info.get("main_f") else [])))
+        elif kind == "same_name_metrics" and info.get("metrics"):
+            # two performance metrics carrying the same label (names are free labels); the second is the larger one
+            label = rng.choice(["worst-case", "metric", "Performance_metric_0", "tau"])
+            for o in b.ops:
+                if o["op"] == "metric":
+                    o["name"] = label
+            m = info["metrics"][0]
+            e = b.elin([(m, r2(1.2 + rng.random()))], const=r2(0.05 + 0.1 * rng.random()))
+            b.metric(e)
+            b.ops[-1]["name"] = label
         elif kind == "orphan_psd" and info.get("metrics"):
             # a PSDMatrix object that is created but never added to the model
             b.psd([[info["metrics"][0], 0.0], [0.0, 1.0]], target=None)
@@ -941,11 +970,11 @@ def decorate(b, rng, kinds):
 
 DECORATIONS = ["extra_metric", "redundant_cons", "eq_cons", "func_cons", "lmi_sym", "lmi_asym", "lmi_func", "lmi3",
                "unused_query", "useless_partition", "orphan_psd", "part_cons", "zero_coef", "mirror", "leaf_metric",
-               "leaf_sides", "composite_items", "double_reg", "idle_operator", "lmi_affine", "tiny_scale"]
+               "leaf_sides", "composite_items", "double_reg", "idle_operator", "lmi_affine", "tiny_scale", "raw_zero_lmi", "same_name_metrics"]
 
 
 def build_model(rng, prefix="", template=None, n=None, decorations=None, names=None, weights=None,
-                allow_decor=None):
+                allow_decor=None, dup_names=None):
     """Emit one model.  Returns the Builder."""
     weights = weights or DEFAULT_WEIGHTS
     if template is None:
@@ -963,6 +992,16 @@ def build_model(rng, prefix="", template=None, n=None, decorations=None, names=N
         decorations = [rng.choice(pool) for _ in range(k)] if pool else []
     decorate(b, rng, decorations)
     b.info["decorations"] = list(decorations)
+    if b.names and dup_names is not False and rng.random() < 0.25:
+        # names are free labels, nothing requires them to be unique: every named object of a kind gets the same one
+        scope = rng.choice(["metric", "point", "all"])
+        same = {"metric": "worst-case", "point": "x", "gradient": "g", "stationary": "x", "cons": "condition",
+                "psd": "lmi", "func": "f", "value": "v"}
+        for op in b.ops:
+            if op.get("name") is not None and (scope == "all" or op["op"] == scope or
+                                               (scope == "point" and op["op"] in ("gradient", "stationary"))):
+                op["name"] = same.get(op["op"], "obj")
+        b.info["dup_names"] = scope
     # alternative routes of the public API to the same declarations
     for op in b.ops:
         if op["op"] in ("point", "func", "gradient") and op.get("name") is not None and rng.random() < 0.3:
